@@ -592,6 +592,12 @@ def install(tap, run):
         if not (width > 0 and height > 0):
             run.count("skipped:reduction_blocks:degenerate_region")
             return []
+        # an extent of a few ulp of the coordinates (all points share one easting up to round-off): cell positions are then
+        # decided by the rounding of the coordinates themselves, not by the partition - either-way, like a point on a cell edge
+        tiny = float(np.finfo("float64").eps) * 1e7
+        if width < tiny * max(abs(w), abs(e)) or height < tiny * max(abs(s), abs(n)):
+            run.count("either_way:reduction_blocks:extent_at_round_off_of_the_coordinates")
+            return []
         fe, fn = (east - w) / width, (north - s) / height
         near = (np.abs(fe - np.round(fe)) < 1e-9 * max(1.0, n_east)) & (np.round(fe) > 0) & (np.round(fe) < n_east)
         near |= (np.abs(fn - np.round(fn)) < 1e-9 * max(1.0, n_north)) & (np.round(fn) > 0) & (np.round(fn) < n_north)
